@@ -34,6 +34,20 @@ def make_cases(run, scratch):
     rng = run.rng
     quick = run.tier == "quick"
     cases = []   # (name, script lines)
+    # regression corpus first (minimised inputs of fixed defects)
+    cdir = os.path.join(C.VERIF, "corpus", "c01")
+    for n in sorted(os.listdir(cdir)) if os.path.isdir(cdir) else []:
+        lines = []
+        for l in open(os.path.join(cdir, n)):
+            l = l.rstrip("\n")
+            if not l or l.startswith("#"):
+                continue
+            l = l.replace("{REPO}", C.REPO)
+            m = re.search(r"\{SNAP:([^}]+)\}", l)
+            if m:
+                l = l.replace(m.group(0), scratch.unpack(os.path.join(C.REPO, "tests/hwloc", m.group(1))))
+            lines.append(l)
+        cases.append(("corpus:" + n, lines, "corpus"))
     nsyn = 250 if quick else 8000
     for i in range(nsyn):
         desc = S.gen_synthetic(rng)
@@ -89,7 +103,7 @@ def run_cases(run, cases, exe, drv):
     def one(lo):
         part = cases[lo:lo + shard]
         scr = script_of([(n, l, k) for (n, l, k) in part]).replace("echo CASE ", "echo CASE+%d+" % lo)
-        rc, out, err = C.sh([exe], input=scr.encode(), env=C.run_env(HWLOC_DEBUG_CHECK="0"), timeout=600)
+        rc, out, err = C.sh([exe], input=scr.encode(), env={k: v for k, v in C.run_env().items() if k != "HWLOC_DEBUG_CHECK"}, timeout=600)
         rc2, out2, err2 = C.sh([drv], input=out, timeout=600)
         return lo, rc, out2.decode(errors="replace"), err.decode(errors="replace"), rc2, err2.decode(errors="replace")
 
